@@ -131,13 +131,23 @@ def label_value(cx, u, l, disc_t):
         v = None
         if ev and "Enum" in ev:
             for var in ev["Enum"]["variants"]:
-                if var["name"] == m and "Num" in var["value"]:
-                    v = var["value"]["Num"]
+                if var["name"] == m:
+                    if "Num" in var["value"]:
+                        v = var["value"]["Num"]
+                    break
         if v is None:
             raise Unsupported("enum label")
         if isinstance(disc_t, dict):
             return ("Enum", e, m, v)
-        raise Unsupported("enum member label on an integer discriminant")
+        # an enum member as a label of an integer discriminant stands for its value (the emitted
+        # arm is `c if c == E::M as u32`); only when the discriminant is written as the primitive
+        # itself -- through a typedef the cast does not compile
+        raw = u["switch"]["type"]
+        if raw == "U32":
+            return ("U32", v)
+        if raw == "I32":
+            return ("I32", v)
+        raise Unsupported("enum member label on a typedef'd integer discriminant")
     text = c["const"] if c is not None else l
     if disc_t == "Bool":
         if l == "TRUE":
